@@ -19,6 +19,8 @@ import Momo.Extracted
   Iterators are (view, offset) pairs: a forward view with base `b` reads cell `b + i`, a
   `std::reverse_iterator` view with `base() = r` reads cell `r - 1 - i` (error when `i ≥ r`).
   Sizes are unbounded naturals; the only 64-bit wrap-around that matters (pvMultShift) is explicit.
+  `tracedMem` adds a log of the swaps to any memory (the harness observes the real swaps through a custom
+  `iterSwapper`); `Momo/Proof/SortMem.lean` shows it holds the same cells, so every theorem applies to it.
   Core Lean only (no Mathlib): this file is linked into the driver.
 -/
 namespace Momo.Sort
